@@ -132,12 +132,16 @@ def _split_stmt(stmt: ast.stmt, st: _SplitState, s: str, p: str) -> List[_SplitS
 @rule('R49', 'an alignment marker text is split into prefix and indices without dropping or repeating a character')
 def r49(ctx: Ctx) -> RuleReport:
     rep = RuleReport('R49', r49.title, floor=2)
-    fi = ctx.repo.func('penman.surface', 'AlignmentMarker.from_string')
-    # the block that takes the optional one-letter prefix: `if <s>[0].isalpha(): ...`
+    from ..resolve import local_callees
+    root = ctx.repo.func('penman.surface', 'AlignmentMarker.from_string')
+    scope = [f for f in local_callees(ctx, root, depth=1) if f.module.name == 'penman.surface']
+    # the block that takes the optional one-letter prefix: `if <s>[0].isalpha(): ...` (in from_string or a helper it calls)
     blk = None
-    for n in walk_local(fi.node):
-        if isinstance(n, ast.If) and 'isalpha()' in norm(n.test):
-            blk = n
+    fi = root
+    for f in scope:
+        for n in walk_local(f.node):
+            if isinstance(n, ast.If) and 'isalpha()' in norm(n.test):
+                blk, fi = n, f
     if blk is None:
         raise AnalysisError('from_string: no `if _s[0].isalpha()` block')
     m = blk.test
@@ -159,8 +163,8 @@ def r49(ctx: Ctx) -> RuleReport:
                                 f'{st.consumed}: a digit is swallowed (or a character is read twice) for a prefix of that shape')
     # indices: the rest, split at commas, each converted with int
     rest_ok = any(isinstance(n, ast.Call) and norm(n.func) == 'map' and len(n.args) == 2 and norm(n.args[0]) == 'int'
-                  and norm(n.args[1]) == f"{s}.split(',')" for n in walk_local(fi.node)) or \
-        any(isinstance(n, (ast.GeneratorExp, ast.ListComp)) and f"{s}.split(',')" in norm(n) and 'int(' in norm(n) for n in walk_local(fi.node))
+                  and norm(n.args[1]).endswith(".split(',')") for f in scope for n in walk_local(f.node)) or \
+        any(isinstance(n, (ast.GeneratorExp, ast.ListComp)) and ".split(',')" in norm(n) and 'int(' in norm(n) for f in scope for n in walk_local(f.node))
     rep.add('penman.surface:AlignmentMarker.from_string: indices are the comma-separated integers of the rest', fi.loc(),
             'ok' if rest_ok else 'undecided')
     # writer side agrees: ~ prefix indices joined by commas
@@ -234,6 +238,15 @@ def r51(ctx: Ctx) -> RuleReport:
                     'the closing quote is the last " of the atom (an ALIGNMENT token contains no quote: R8h)' if last else
                     'the closing quote is searched from the front: an escaped \\" inside the string is taken for the end, and the '
                     'rest of the string is parsed as an alignment')
+    for n in walk_local(fi.node):
+        if isinstance(n, ast.Call) and isinstance(n.func, ast.Attribute) and n.func.attr in ('index', 'rindex', 'find', 'rfind', 'rpartition', 'partition', 'split', 'rsplit') \
+                and isinstance(n.func.value, ast.Name) and n.func.value.id == p and n.args:
+            okf, sep = try_fold(n.args[0])
+            if okf and isinstance(sep, str) and '"' in sep and sep != '"':
+                found += 1
+                rep.violation(f'penman.layout:_process_atomic: {norm(n)}', fi.loc(n),
+                              f'the end of the string is searched as the text {sep!r}: that pair can also occur at the very start of the atom ("~user/data") or '
+                              f'after an escaped quote inside it (\\"~), so content of the string is split off as an alignment')
     if not found:
         raise AnalysisError('_process_atomic: no search for the closing double quote')
     # strings are recognised by their opening quote
@@ -372,6 +385,14 @@ def r54(ctx: Ctx) -> RuleReport:
                                     slots.add(x.slice.value)
                     if isinstance(n.elt, ast.Subscript) and norm(n.elt.value) == tv.id and isinstance(n.elt.slice, ast.Constant):
                         slots.add(n.elt.slice.value)
+                    # flattened pieces:  chain.from_iterable(t[::2] for t in self.triples)
+                    par_ = pm.get(id(n))
+                    if isinstance(n.elt, ast.Subscript) and norm(n.elt.value) == tv.id and isinstance(n.elt.slice, ast.Slice) \
+                            and isinstance(par_, ast.Call) and norm(par_.func) in ('chain.from_iterable', 'itertools.chain.from_iterable'):
+                        sl = n.elt.slice
+                        slots |= set(range(3)[slice(try_fold(sl.lower)[1] if sl.lower else None,
+                                                    try_fold(sl.upper)[1] if sl.upper else None,
+                                                    try_fold(sl.step)[1] if sl.step else None)])
                 elif isinstance(tv, ast.Tuple) and len(tv.elts) == 3:
                     names = [norm(x) for x in tv.elts]
                     used = {x.id for x in ast.walk(n.elt) if isinstance(x, ast.Name)}
@@ -570,8 +591,23 @@ def r58(ctx: Ctx) -> RuleReport:
                 fx = facts_ex(ctx, nf, c)
                 if (f'is_atomic({tv})', False) in fx and not [x for x in ast.walk(lp) if isinstance(x, (ast.Break, ast.Return))]:
                     rec_ok = True
-    rep.add('penman.tree:_nodes: the node itself and, recursively, every non-atomic branch target', nf.loc(),
-            'ok' if self_in and rec_ok else 'undecided', f'node itself listed: {self_in}; recursion into every nested target: {rec_ok}')
+    fifo = [n for n in walk_local(nf.node) if isinstance(n, ast.Call) and isinstance(n.func, ast.Attribute) and
+            (n.func.attr == 'popleft' or (n.func.attr == 'pop' and n.args and try_fold(n.args[0]) == (True, 0)))]
+    if not rec_ok and fifo:
+        rep.violation('penman.tree:_nodes: the node itself and, recursively, every non-atomic branch target', nf.loc(fifo[0]),
+                      f'`{norm(fifo[0])}` takes the oldest entry of the agenda: the nodes are listed breadth-first, but triples, variable prefixes and '
+                      f'relabelling are defined on the depth-first order of the text (they differ from depth 3 on)')
+    else:
+        rep.add('penman.tree:_nodes: the node itself and, recursively, every non-atomic branch target', nf.loc(),
+                'ok' if self_in and rec_ok else 'undecided', f'node itself listed: {self_in}; recursion into every nested target: {rec_ok}')
+    # the graph gets the root variable of the tree as its explicit top
+    gcalls = [c for c, ts in ctx.cg.calls_in(fi) if any(t.kind == 'class' and t.cls.name == 'Graph' for t in ts)]
+    for c in gcalls:
+        top = next((k.value for k in c.keywords if k.arg == 'top'), c.args[1] if len(c.args) > 1 else None)
+        rep.add('penman.layout:interpret: the root variable of the tree is passed as the top of the graph', fi.loc(c),
+                'ok' if top is not None else 'violation',
+                '' if top is not None else f'`{norm(c)[:70]}` leaves the top implicit, i.e. the source of the first triple: when the first branch of the root is an '
+                                           f'inverted role, deinversion puts another variable there and the graph gets the wrong top')
     return rep
 
 
@@ -1104,4 +1140,153 @@ def r74(ctx: Ctx) -> RuleReport:
                     rep.add(key, fi.loc(h), 'info', 'broad handler that re-raises')
                 else:
                     rep.ok(key, fi.loc(h))
+    return rep
+
+
+@rule('R75', 'a lookup table stored on an object is a plain dict: reading a missing key must not insert it')
+def r75(ctx: Ctx) -> RuleReport:
+    rep = RuleReport('R75', r75.title, floor=2)
+    for fi in ctx.repo.all_functions():
+        if fi.cls is None:
+            continue
+        dd = {nm for nm, vals in ctx.cg.local_assigns(fi).items() if any(
+            isinstance(v, ast.Call) and norm(v.func) in ('defaultdict', 'collections.defaultdict') for v in vals if isinstance(v, ast.AST))}
+        if not dd:
+            continue
+        for n in walk_local(fi.node):
+            if isinstance(n, ast.Assign) and isinstance(n.targets[0], ast.Attribute) and norm(n.targets[0].value) == 'self':
+                attr = n.targets[0].attr
+                v = n.value
+                key = f'{fi.module.name}:{fi.qualname}: self.{attr} = {norm(v)[:30]}'
+                if isinstance(v, ast.Call) and norm(v.func) == 'dict' and v.args and isinstance(v.args[0], ast.Name) and v.args[0].id in dd:
+                    rep.ok(key, fi.loc(n), 'converted to a plain dict')
+                elif isinstance(v, ast.Name) and v.id in dd:
+                    reads = []
+                    for m in fi.cls.methods.values():
+                        reads += [(m, x) for x in walk_local(m.node) if isinstance(x, ast.Subscript) and isinstance(x.ctx, ast.Load)
+                                  and norm(x.value) == f'self.{attr}']
+                    if reads:
+                        m, x = reads[0]
+                        rep.violation(key, fi.loc(n), f'self.{attr} stays a defaultdict, and {m.qualname} reads it with `{norm(x)[:40]}`: looking up a key that is '
+                                      f'not there inserts an empty entry, so a failed query changes the object (is_role_reifiable flips, two equal '
+                                      f'models stop being equal)')
+                    else:
+                        rep.add(key, fi.loc(n), 'info', 'a defaultdict is stored but never read by subscript')
+    return rep
+
+
+@rule('R76', 'no module-level mutable object is handed out as a default value (objects without their own value would share it)')
+def r76(ctx: Ctx) -> RuleReport:
+    rep = RuleReport('R76', r76.title, floor=0)
+    probe = ast.parse('_EMPTY = {}\nclass T:\n    def __init__(self, m=None):\n        self.m = m or _EMPTY\n')
+    if not _shared_defaults(probe, {'_EMPTY'}):
+        raise AnalysisError('R76 self-test: the matcher misses `x or _SHARED`')
+    n = 0
+    for m in ctx.repo.modules.values():
+        mut = set()
+        for name, v in m.constants.items():
+            if isinstance(v, (ast.Dict, ast.List, ast.Set)) and not getattr(v, 'keys', getattr(v, 'elts', None)):
+                mut.add(name)
+            elif isinstance(v, ast.Call) and norm(v.func) in ('dict', 'list', 'set', 'defaultdict', 'OrderedDict', 'collections.defaultdict') and not v.args:
+                mut.add(name)
+        n += len(mut)
+        if not mut:
+            continue
+        for fi in m.all_funcs:
+            for node, name in _shared_defaults(fi.node, mut):
+                rep.violation(f'{m.name}:{fi.qualname}: {norm(node)[:60]}', fi.loc(node),
+                              f'`{name}` is one module-level object: every caller that does not bring its own value gets this same object, so a change made '
+                              f'through one result (tree.metadata["id"] = ...) shows up in all the others and in later calls')
+    rep.analysed['module_level_empty_mutables'] = n
+    return rep
+
+
+def _shared_defaults(root, names):
+    out = []
+    for n in ast.walk(root):
+        v = None
+        if isinstance(n, ast.Assign) and isinstance(n.targets[0], ast.Attribute):
+            v = n.value
+        elif isinstance(n, ast.Return) and n.value is not None:
+            v = n.value
+        if v is None:
+            continue
+        cands = []
+        if isinstance(v, ast.BoolOp) and isinstance(v.op, ast.Or):
+            cands = v.values[1:]
+        elif isinstance(v, ast.IfExp):
+            cands = [v.body, v.orelse]
+        elif isinstance(v, ast.Name):
+            cands = [v]
+        for c in cands:
+            if isinstance(c, ast.Name) and c.id in names:
+                out.append((n, c.id))
+    return out
+
+
+@rule('R77', 'the graphs of a stream are handled independently: no value computed for one graph is read while handling a later one')
+def r77(ctx: Ctx) -> RuleReport:
+    from ..resolve import view
+    from ..cfg import assigned_names
+    rep = RuleReport('R77', r77.title, floor=3)
+    targets = [('penman._parse', 'iterparse'), ('penman.codec', '_iterdecode'), ('penman.__main__', 'process'), ('penman.codec', '_dump_stream'),
+               ('penman.codec', 'PENMANCodec.iterdecode'), ('penman.codec', 'PENMANCodec.iterparse')]
+    for mod, qn in targets:
+        fi = ctx.repo.maybe_func(mod, qn)
+        if fi is None:
+            continue
+        v = view(ctx, fi)
+        cfg = v.cfg
+        for loop in [n for n in walk_local(fi.node) if isinstance(n, (ast.For, ast.While))]:
+            head = cfg.node_of(loop)
+            body_nodes = [nd for nd in cfg.nodes if nd.ast is not None and nd.ast is not loop and any(x is nd.ast for x in ast.walk(loop))]
+            loop_target = {x.id for x in ast.walk(loop.target) if isinstance(x, ast.Name)} if isinstance(loop, ast.For) else set()
+            names = set()
+            for nd in body_nodes:
+                if nd.kind == 'stmt':
+                    names |= assigned_names(nd.ast)
+            key = f'{fi.module.name}:{fi.qualname}: loop at {norm(loop)[:40].splitlines()[0]}'
+            carried = []
+            for x in sorted(names - loop_target):
+                defs = [nd for nd in body_nodes if nd.kind == 'stmt' and x in assigned_names(nd.ast)]
+                # accumulators and first-iteration flags are meant to be carried
+                def harmless(nd):
+                    a = nd.ast
+                    if isinstance(a, ast.AugAssign):
+                        return True
+                    return isinstance(a, ast.Assign) and isinstance(a.value, ast.Constant) and isinstance(a.value.value, (bool, int))
+                if all(harmless(d) for d in defs):
+                    continue
+                redef = {d.id for d in defs}
+
+                def uses(nd, x=x):
+                    if nd.ast is None:
+                        return False
+                    root = nd.ast
+                    if isinstance(root, (ast.For, ast.While, ast.If)) and nd.kind != 'cond':
+                        root = getattr(root, 'iter', None) or getattr(root, 'test', None)
+                        if root is None:
+                            return False
+                    return any(isinstance(y, ast.Name) and y.id == x and isinstance(y.ctx, ast.Load) for y in ast.walk(root))
+                for d in defs:
+                    if harmless(d):
+                        continue
+                    # def -> loop head without another definition ...
+                    p1 = cfg.path_avoiding([(d.id, None)], {head}, lambda nd: nd.id in redef and nd.id != d.id)
+                    if p1 is None:
+                        continue
+                    # ... and from the head to a use without passing a definition
+                    use_nodes = {nd.id for nd in body_nodes if uses(nd) and nd.id not in redef}
+                    use_nodes |= {nd.id for nd in body_nodes if uses(nd) and nd.id in redef}     # x = f(x) reads first
+                    p2 = None
+                    for lab in ('T', None):
+                        p2 = p2 or cfg.path_avoiding([(head, lab)], use_nodes, lambda nd: nd.id in redef and not uses(nd))
+                    if p2 is not None:
+                        carried.append((x, d, p2))
+            if carried:
+                x, d, p2 = carried[0]
+                rep.violation(key, fi.loc(d.ast), f'`{x}`, assigned by `{norm(d.ast)[:50]}` while one graph is handled, can still be read when a later graph is handled ('
+                              + ' -> '.join(repr(cfg.nodes[i]) for i in p2[-3:])[:160] + '): data of one graph (its metadata, its text) leaks into the next')
+            else:
+                rep.ok(key, fi.loc(loop))
     return rep
